@@ -388,6 +388,10 @@ def run(ctx, rep):
     c06.rule_init(ctx, rep)
     c06.rule_lenflow(ctx, rep)
     c06.rule_iterloop(ctx, rep)
+    from . import c07 as _c07
+
+    _c07.rule_guard(ctx, rep)  # a handle re-pointed behind a lent transient reaches the caller's place on both exits, or one block is released twice and the other never
+    balance.rule_write_provenance(ctx, rep)  # an owner's pointer must allow the writes owners make (count, get_mut, the final drop)
     balance.rule_writeback(ctx, rep)
     rep.floor("R-WRITEBACK", 0, "OffsetArc::make_mut today; a copy-on-write that never moves the handle out of its place has nothing to write back")
     rep.floor("R-BAL", 150, "API bodies (default configuration has 170+)")
